@@ -34,9 +34,13 @@ ASSUMPTIONS = [
 _CACHE = {}
 
 
-def _mk_history(r, n_edits, kinds=None):
+def _mk_history(r, n_edits, kinds=None, npkgs=None, require=None):
     from gen import buildsim as bs
-    proj = bs.gen_project(r)
+    proj = bs.gen_project(r, npkgs)
+    for _ in range(200):
+        if not require or proj.get(require):
+            break
+        proj = bs.gen_project(r, npkgs)
     hist = [proj]
     edits = [["initial"]]
     for _ in range(n_edits):
@@ -61,14 +65,15 @@ def run_history(job):
     from gen import buildsim as bs
     r = random.Random(job["key"])
     rec = {"key": job["key"], "invs": [], "truncated": False, "develop": None, "n_edits": job["n_edits"],
-           "j1": bool(job.get("j1")), "kinds": job.get("kinds")}
+           "j1": bool(job.get("j1")), "kinds": job.get("kinds"), "failrevert": bool(job.get("failrevert")),
+           "force_dev": bool(job.get("force_dev")), "features": job.get("features")}
     if time.time() > job["deadline"]:
         rec["truncated"] = True
         return rec
-    hist, edits = _mk_history(r, job["n_edits"], job.get("kinds"))
-    develop = r.random() < 0.7
+    hist, edits = _mk_history(r, job["n_edits"], job.get("kinds"), job.get("npkgs"), job.get("require"))
+    develop = r.random() < 0.7 or bool(job.get("force_dev"))
     jobs = 1 if (job.get("j1") or r.random() < 0.75) else r.choice([2, 4])
-    rec.update(develop=develop, jobs=jobs, edits=edits)
+    rec.update(develop=develop, jobs=jobs, edits=edits, npkgs=job.get("npkgs"), require=job.get("require"))
     base = os.path.join(job["tmp"], "h-" + "".join(c if c.isalnum() else "_" for c in job["key"]))
     shutil.rmtree(base, ignore_errors=True)
     simA = bs.Sim(os.path.join(base, "a"), job["repo"], job["deadline"] + 5)
@@ -81,6 +86,48 @@ def run_history(job):
                 rec["truncated"] = True
                 hist = hist[:i]
                 break
+            if i > 0 and (r.random() < 0.25 or (job.get("failrevert") and i == 1)):
+                # edit -> build in which a step script dies after half of its output -> REVERT to the byte-identical
+                # previous project -> build.  (Then the edit is applied again and built normally.)
+                e = edits[i]
+                names = list(proj["pkgs"])
+                tgt = e[1] if len(e) > 1 and e[1] in names else r.choice(names)
+                kind = r.choice(["build", "build", "package"])
+                mode = r.choice(["exit", "kill", "term"])
+                bs.render(proj, simA.root)
+                simA.clear_faults()
+                simA.set_fault(kind, tgt, mode)
+                argvf = _argv(proj, jobs, False)
+                resf = simA.invoke(develop, argvf)
+                fired = simA.fired()
+                simA.clear_faults()
+                obsf = bs.observe(simA, resf, known)
+                known |= set(obsf["state"])
+                invf = {"i": i - 0.7, "proj": proj, "argv": argvf, "force": False, "rc": resf["rc"], "error": resf["error"],
+                        "log": resf["log"], "obs": obsf, "tail": "", "abort": ["fault", kind, tgt, mode], "fired": fired}
+                invf["model"] = bs.model_params(invf)
+                rec["invs"].append(invf)
+                if fired and resf["rc"] == 0:
+                    rec.setdefault("death_ignored", []).append({"i": i, "fault": [kind, tgt, mode]})
+                if not isinstance(resf["rc"], int):
+                    break
+                bs.render(hist[i - 1], simA.root)
+                argvr = _argv(hist[i - 1], jobs, False)
+                resr = simA.invoke(develop, argvr)
+                obsr = bs.observe(simA, resr, known)
+                known |= set(obsr["state"])
+                rec["invs"].append({"i": i - 0.6, "proj": hist[i - 1], "argv": argvr, "force": False, "rc": resr["rc"],
+                                    "error": resr["error"], "log": resr["log"], "obs": obsr,
+                                    "tail": resr["stdout"][-1500:] if resr["rc"] != 0 else "", "revert_after_fault": True})
+                if resr["rc"] != 0:
+                    last = (hist[i - 1], argvr, resr, obsr)
+                    hist = hist[:i]
+                    break
+                if r.random() < 0.5:
+                    # stop here: the final state of the history is the reverted project
+                    last = (hist[i - 1], argvr, resr, obsr)
+                    hist = hist[:i]
+                    break
             bs.render(proj, simA.root)
             if i > 0 and r.random() < 0.2:
                 # an invocation that leaves stale state by request (--no-deps / --checkout-only) in between
@@ -155,6 +202,8 @@ def _jobs(ctx, n, n_edits, tag, **kw):
 def judge_history(ctx, rec):
     """the property's own statement on one recorded history"""
     case = {"key": rec["key"], "n_edits": rec.get("n_edits"), "j1": rec.get("j1"), "kinds": rec.get("kinds"),
+            "failrevert": rec.get("failrevert"), "force_dev": rec.get("force_dev"), "npkgs": rec.get("npkgs"),
+            "require": rec.get("require"),
             "develop": rec.get("develop"), "jobs": rec.get("jobs"), "edits": rec.get("edits")}
     for inv in rec["invs"]:
         nontrivial = any(e[0] in ("run", "emptyDir") for e in inv["log"])
@@ -167,6 +216,9 @@ def judge_history(ctx, rec):
     if rec.get("edits"):
         for e in rec["edits"]:
             ctx.count("edit_kind", e[0])
+    for d in rec.get("death_ignored", []):
+        ctx.violation("the script of a step died from a signal / failed (%s) but the invocation exits 0 and goes on"
+                      % d["fault"], dict(case, fault=d), "script-death-ignored")
     fin = rec.get("final")
     if not fin:
         if rec["truncated"]:
@@ -235,7 +287,17 @@ def oblivious_expectation(job):
 def oracle(ctx):
     n = ctx.scale(48, 600)
     jobs = _jobs(ctx, n, ctx.scale(6, 12), "hist", share=0.45)
-    recs = ctx.parallel(run_history, jobs)
+    # a guaranteed minimum, whatever the machine load: short histories that are not cut by the deadline -
+    # recipes built in several variants (develop mode), and "edit -> failing build -> revert -> build"
+    far = time.time() + 3600
+    must = []
+    for k in range(ctx.scale(4, 12)):
+        must.append(dict(repo=ctx.repo, tmp=ctx.tmp, key="%s-%d-must-mv-%d" % (ctx.prop, ctx.seed, k), n_edits=2,
+                         deadline=far, npkgs=3, require="multivariant", force_dev=True, kinds=["xenv"], j1=True))
+    for k in range(ctx.scale(4, 12)):
+        must.append(dict(repo=ctx.repo, tmp=ctx.tmp, key="%s-%d-must-fr-%d" % (ctx.prop, ctx.seed, k), n_edits=1,
+                         deadline=far, npkgs=2, failrevert=True, kinds=["src-modify", "src-add"], j1=True))
+    recs = ctx.parallel(run_history, must + jobs)
     _CACHE["recs"] = recs
     for rec in recs:
         judge_history(ctx, rec)
@@ -328,7 +390,8 @@ def correspond(ctx):
 
 def replay(ctx, case):
     job = dict(repo=ctx.repo, tmp=ctx.tmp, key=case["key"], n_edits=case.get("n_edits") or 5, j1=case.get("j1"),
-               kinds=case.get("kinds"), deadline=time.time() + 600)
+               kinds=case.get("kinds"), failrevert=case.get("failrevert"), force_dev=case.get("force_dev"),
+               npkgs=case.get("npkgs"), require=case.get("require"), deadline=time.time() + 900)
     rec = run_history(job)
     judge_history(ctx, rec)
 
